@@ -2,6 +2,7 @@
 #![allow(clippy::all)]
 mod assertions;
 mod context;
+mod padfield;
 mod security;
 
 fn main() {
